@@ -71,5 +71,6 @@ fn generate_book_data() -> Result<(), BuildError> {
 }
 
 fn main() {
+    println!("cargo::rustc-check-cfg=cfg(weechess_verif)");
     generate_book_data().unwrap();
 }
